@@ -52,9 +52,9 @@ def build():
     info['wall_s'] = round(time.time() - t0, 2)
     return info
 
-def audit(theorems):
+def audit(theorems, modules=('LarkVerif',)):
     """`#print axioms` for each theorem name → {name: [axioms] | None (missing)}"""
-    src = 'import LarkVerif\n' + '\n'.join('#print axioms %s' % t for t in theorems) + '\n'
+    src = ''.join('import %s\n' % m for m in modules) + '\n'.join('#print axioms %s' % t for t in theorems) + '\n'
     path = LEAN / ('.audit_%d.lean' % os.getpid())
     path.write_text(src)
     try:
@@ -100,7 +100,7 @@ def proof_status(pid, binfo, thorough=False):
     st['forbidden_hits'] = hits
     if hits:
         st['broken'].append('forbidden constructs in the Lean library: %s' % hits[:5])
-    ax, raw = audit(thms)
+    ax, raw = audit(thms, reg['modules'])
     for t in thms:
         a = ax.get(t)
         st['axioms'][t] = a
